@@ -9,6 +9,7 @@ pub mod util;
 pub mod c01;
 pub mod c02;
 pub mod c03;
+pub mod c04;
 pub mod c05;
 pub mod c06;
 pub mod c07;
@@ -19,9 +20,12 @@ pub mod c11;
 pub mod c12;
 pub mod c13;
 pub mod c14;
+pub mod c15;
+pub mod c16;
 pub mod c17;
 pub mod c18;
 pub mod c19;
+pub mod c20;
 
 fn go<P: Property>(args: &RunArgs, replay: Option<&Path>, strict: bool) -> i32 {
     match replay {
@@ -35,6 +39,7 @@ pub fn dispatch(id: &str, args: &RunArgs, replay: Option<&Path>, strict: bool) -
         "C01" => go::<c01::P>(args, replay, strict),
         "C02" => go::<c02::P>(args, replay, strict),
         "C03" => go::<c03::P>(args, replay, strict),
+        "C04" => go::<c04::P>(args, replay, strict),
         "C05" => go::<c05::P>(args, replay, strict),
         "C06" => go::<c06::P>(args, replay, strict),
         "C07" => go::<c07::P>(args, replay, strict),
@@ -45,9 +50,12 @@ pub fn dispatch(id: &str, args: &RunArgs, replay: Option<&Path>, strict: bool) -
         "C12" => go::<c12::P>(args, replay, strict),
         "C13" => go::<c13::P>(args, replay, strict),
         "C14" => go::<c14::P>(args, replay, strict),
+        "C15" => go::<c15::P>(args, replay, strict),
+        "C16" => go::<c16::P>(args, replay, strict),
         "C17" => go::<c17::P>(args, replay, strict),
         "C18" => go::<c18::P>(args, replay, strict),
         "C19" => go::<c19::P>(args, replay, strict),
+        "C20" => go::<c20::P>(args, replay, strict),
         _ => {
             println!("ERROR: unknown property id {id}");
             2
